@@ -19,6 +19,12 @@ CHECKS['C14'] = dict(technique='model-based runtime monitor: random operation hi
 CHECKS['C16'] = dict(technique='history-based runtime monitor: fresh-process baseline vs random call histories, writable-segment hashing and process-state probes',
              text='Each sampled query is executed as the only call of a fresh process and then re-observed thousands of times inside seeded random histories of the whole API (failing calls, parser, catalogues, crystal copies, with/without XRayInit, under a comma-decimal locale): every occurrence must be bit-identical; the library\'s writable memory is hashed before and after each history, and locale, cwd, stdout/stderr and earlier error objects are re-checked.',
              note='Trusted: harness/puremon.c, dl_iterate_phdr segment enumeration, library linked -z now; explicit built-in insertions are exercised separately to prove the hash sees writes.', ref='2 C16')
+CHECKS['C17'] = dict(technique='ThreadSanitizer race detection plus serial-reference result monitor and hook-based overlap monitor under multi-threaded stress',
+             text='8-16 threads run seeded mixes of all thread-safe entry points against a ThreadSanitizer build and a plain build, under C and a comma-decimal locale, with seeded yields at the library hook points; every result is compared bit for bit with a serial reference and the hook log proves how often threads were inside the parser / compound / crystal-copy / error-store windows simultaneously.',
+             note='TSan only sees instrumented code and intercepted libc calls; held = no race report and no result mismatch on the runs counted, with the overlap counts of the evidence.', ref='2 C17')
+CHECKS['C13'] = dict(technique='offline relation checker over recorded API calls vs an independent numpy crystallography reference',
+             text='Built-in crystals and seeded triclinic cells are driven over Miller indices, energies, Debye factors, relative angles and all partial-term flags; d-spacings, volumes, Bragg angles, Q and structure factors returned by the library are compared with a metric-tensor reference and the explicit structure-factor sum, plus inversion/scaling/Friedel/additivity relations and the error side.',
+             note='Trusted: numpy reference in xv/oracles/c13.py; tolerances 1e-10 (1e-5 where the float-printed built-in volume enters).', ref='2 C13')
 NOT_APPLICABLE = [
  dict(property_id='C20', reason='Fortran/Pascal/Cython/IDL/SWIG interface files cannot be compiled, loaded or executed in this sandbox (no gfortran, fpc, Cython, swig, IDL), so there is no execution for a runtime monitor to observe; comparing their text is static analysis, a different technique. The executable slices (Java constants, C++ header, exported symbols) are monitored as by-products of C19/C18/C03.'),
 ]
